@@ -12,6 +12,7 @@ CONSTANTS
   PeriodicFix = TRUE
   EnqAnywhere = FALSE
   Record = TRUE
+  MaxPre = 1
 INVARIANTS TypeOK
 
 CHECK_DEADLOCK FALSE
